@@ -114,14 +114,28 @@ func init() {
 	reg(hpkg+"verifDrain", func(m *Machine, _ *frame, _ token.Pos, _ *ssa.Function, a []Value) Value {
 		me := m.cur
 		me.inDrain = true
-		m.block(func() bool {
+		atRest := func() bool {
 			for _, t := range m.threads {
 				if t != me && !t.inDrain && m.runnable(t) {
 					return false
 				}
 			}
 			return true
-		}, "verifDrain")
+		}
+		if m.ex.Mode == "conc" {
+			// under a schedule verifDrain always ends the step (blocked) and is resumed by a
+			// step of its own, whether or not anybody else can run: the native schedule
+			// player parks the harness here and needs one entry that resumes it
+			me.waiting = atRest
+			me.waitOn = "verifDrain"
+			m.parked <- struct{}{}
+			<-me.resume
+			if m.dead {
+				panic(abortThread{})
+			}
+			me.waiting = nil
+		}
+		m.block(atRest, "verifDrain")
 		me.inDrain = false
 		m.hbBarrier()
 		return nil
